@@ -264,6 +264,32 @@ def r4(ctx: Ctx, prog: sf.SqlProgram) -> None:
                     cvar = st.into[0].parts[0].lower()
         cons = f'{rr.file}::{name}'
         ctx.check(cvar is not None, 'R4', cons + '::cancel flag', 'the procedure does not evaluate is_job_cancelled(in_batch_id, in_job_id)', rr.file, rr.line)
+        if cvar is not None:
+            # reaching definitions of the flag: on every path it must hold the value of is_job_cancelled for this job
+            defs = []  # (statement, guard, is the canonical definition?)
+            for st, guard in sf.guarded_statements(aa.body):
+                if st.kind == 'select' and st.into:
+                    names = [t.parts[0].lower() for t in st.into]
+                    if cvar in names:
+                        i = names.index(cvar)
+                        col = st.cols[i][0] if i < len(st.cols) else None
+                        canon = col is not None and col.kind == 'func' and col.name == 'IS_JOB_CANCELLED' and [text(x).lower() for x in col.args] == ['in_batch_id', 'in_job_id']
+                        defs.append((st, guard, canon))
+                elif st.kind == 'set' and any(text(c).lower() == cvar for c, _ in getattr(st, 'sets', []) or []):
+                    defs.append((st, guard, False))
+            canon_defs = [d for d in defs if d[2]]
+            last = defs[-1] if defs else None
+            ok_def = bool(canon_defs) and last is not None and last[2] and last[1] == ()
+            why = ''
+            if not ok_def and canon_defs:
+                cd = canon_defs[-1]
+                if cd[1] != ():
+                    why = (f'is_job_cancelled is evaluated only under {[("" if p else "NOT ") + text(c) for c, p in cd[1]]}; on the other paths `{cvar}` keeps '
+                           f'`{text(defs[0][0])[:80]}`, which does not look at the job group and its ancestors')
+                else:
+                    why = f'`{cvar}` is re-assigned after is_job_cancelled was evaluated (`{text(last[0])[:80]}`)'
+            ctx.check(ok_def, 'R4', cons + '::cancel flag is is_job_cancelled on every path', why or 'no definition of the flag from is_job_cancelled',
+                      rr.file, rr.line_of(canon_defs[-1][0]) if canon_defs else rr.line)
         found = False
         for st, guard in sf.guarded_statements(aa.body):
             if st.kind == 'update' and sf.table_names(st.frm)[:1] == ['jobs']:
@@ -365,12 +391,106 @@ def r5(ctx: Ctx) -> None:
                               f'(or cancelled = 1): jobs of sibling/ancestor groups or always-run jobs would be cancelled (conjuncts {conj}, guards {flag_tests}, inner-join={only_cancelled_groups})', m.path, e.lineno)
 
 
+def r6(ctx: Ctx, prog: sf.SqlProgram) -> None:
+    """A cancel request that was accepted is always RECORDED: the mark in job_groups_cancelled is what refuses later jobs / sub-groups
+    (R2) and what the driver filters on (R4, R5).  (a) SQL: in the cancel procedures the INSERT of the mark depends on nothing but
+    "not already cancelled" -- in particular not on the group's state (a complete / still empty group can be cancelled and must then
+    refuse additions).  (b) Python: every function that issues `CALL cancel_job_group` / `CALL cancel_batch` reaches that CALL on every
+    normal exit (an early `return` -- "nothing left to cancel" -- answers 200 without recording anything), and so does every wrapper
+    on the way up to the route handlers."""
+    # only procedures that some Python site (or another procedure) actually CALLs are judged; a legacy procedure nobody calls is listed
+    called = set()
+    for rel in pf.walk_py(['batch/batch']):
+        m0 = pf.load(rel)
+        if 'CALL ' not in m0.src:
+            continue
+        for e in sf.embedded_in(m0):
+            if e.sql_text is not None:
+                called |= {st.name for st in e.stmts() if st.kind == 'call'}
+    for rr in prog.routines.values():
+        called |= {st.name for st in sf.all_statements(rr.ast.body) if st.kind == 'call'}
+    for name in ('cancel_job_group', 'cancel_batch'):
+        if name not in prog.routines:
+            continue
+        if name not in called:
+            ctx.info(f'{name}: defined but never CALLed from batch/batch or another routine (legacy); not judged')
+            continue
+        r = prog.routine(name)
+        marks = [(st, g) for st, g in sf.guarded_statements(r.ast.body) if st.kind == 'insert' and any(t.lower() == 'job_groups_cancelled' for t, _ in sf.written_tables(st))]
+        if name == 'cancel_job_group':
+            ctx.need(len(marks) >= 1, f'{name}: INSERT INTO job_groups_cancelled not found')
+        for st, guard in marks:
+            def known(n: N):
+                return 0 if text(n).lower() == 'cur_cancelled' else UNKNOWN
+            vals = set()
+            ok = True
+            for c, pol in guard:
+                m = may(c, known)
+                want = True if pol else False
+                if m != {want}:
+                    ok = False
+                    vals.add(text(c))
+            ctx.check(ok, 'R6', f'sql::{name}::cancellation mark recorded', f'the INSERT INTO job_groups_cancelled also depends on {sorted(vals)}: for some state of the group the cancellation is '
+                      'accepted but not recorded, so jobs and sub-groups can still be added beneath the cancelled group and its Ready jobs are still scheduled', r.file, r.line_of(st))
+    # Python side
+    mods = {}
+    direct = []   # (module, fn, call node)
+    for rel in pf.walk_py(['batch/batch']):
+        m = pf.load(rel)
+        if 'CALL cancel_job_group' not in m.src and 'CALL cancel_batch' not in m.src and 'cancel_job_group_in_db' not in m.src:
+            continue
+        mods[rel] = m
+        for e in sf.embedded_in(m):
+            if e.sql_text is None or e.fn is None:
+                continue
+            if any(st.kind == 'call' and st.name in ('cancel_job_group', 'cancel_batch') for st in e.stmts()):
+                direct.append((m, e.fn, e.call))
+    ctx.need(len(direct) >= 2, f'only {len(direct)} Python sites issue CALL cancel_job_group / cancel_batch')
+    performing = {}  # function name -> (module, fn)
+
+    def must_pass(m: pf.Module, fn: pf.FuncDef, call: ast.AST, what: str) -> None:
+        cfg = pf.cfg(fn)
+        goals = cfg.node_of(call)
+        ctx.need(bool(goals), f'{m.rel}::{m.qualname(fn)}: {what} not found in the CFG')
+        p = cfg.path_avoiding(cfg.entry, lambda n: n is cfg.exit, lambda n: any(n is g for g in goals))
+        ctx.check(p is None, 'R6', f'{m.rel}::{m.qualname(fn)}::{what} on every normal exit',
+                  f'{m.qualname(fn)} can return normally without reaching {what}' + (f' (via `{p[-2].text()}`)' if p and len(p) > 1 else '') +
+                  ': the request is answered as a success but the cancellation is not recorded -- later jobs / sub-groups are accepted beneath the group and it keeps being scheduled',
+                  m.path, fn.lineno)
+    for m, fn, call in direct:
+        must_pass(m, fn, call, 'the CALL of the cancel procedure')
+        performing[fn.name] = (m, fn)
+    # wrappers: a function whose name says it cancels and that calls a performing function (nested `cancel(tx)` helpers, *_in_db, route helpers)
+    changed = True
+    seen = set()
+    while changed:
+        changed = False
+        for rel, m in mods.items():
+            for q, fn in m.functions():
+                if (rel, q) in seen or 'cancel' not in fn.name.lower():
+                    continue
+                calls = [c for c in pf.calls_in(fn) if (pf.dotted(c.func) or '').split('.')[-1] in performing and performing[(pf.dotted(c.func) or '').split('.')[-1]][1] is not fn]
+                if not calls:
+                    continue
+                seen.add((rel, q))
+                for c in calls:
+                    if sr.enclosing_loops(m, c):
+                        # a loop over several groups (e.g. the driver cancelling fast-failing groups): zero iterations are legitimate
+                        ctx.ok('R6', f'{m.rel}::{m.qualname(fn)}::`{pf.nsrc(c.func)}(...)` per item of a loop', 'one request per iteration')
+                        continue
+                    must_pass(m, fn, c, f'`{pf.nsrc(c.func)}(...)`')
+                if fn.name not in performing:
+                    performing[fn.name] = (m, fn)
+                    changed = True
+
+
 def run(ctx: Ctx) -> None:
     ctx.explanation = 'Classification of every consultation of job_groups_cancelled, truth table of is_job_cancelled, guard dominance in the scheduling procedures and driver selections.'
     ctx.rule('R1', 'every lookup of job_groups_cancelled is the canonical ancestor walk on one subject, a root lookup at a batch-level site, or a listed reporting-only site', 24)
     ctx.rule('R2', 'admission guards: trigger refuses jobs under cancelled groups (-> HTTP 400); sub-group under cancelled parent refused; update on cancelled batch refused', 5)
     ctx.rule('R3', 'all writes of cancel_job_group / cancel_batch happen only when not already cancelled', 6)
-    ctx.rule('R4', 'is_job_cancelled truth table; state := Running|Creating requires NOT cancelled for the same job; procedures always answer', 11)
+    ctx.rule('R4', 'is_job_cancelled truth table; state := Running|Creating requires NOT cancelled for the same job; procedures always answer', 14)
+    ctx.rule('R6', 'an accepted cancel request is always recorded: the mark depends only on not-already-cancelled; every cancel entry point reaches the CALL on every normal exit', 5)
     ctx.rule('R5', 'driver selections: scheduler and canceller filters on always_run / cancelled / group walk', 8)
     ctx.assume('job_group_self_and_ancestors contains exactly (group, ancestor) pairs including (g, g); maintained at group creation')
     prog = sf.load_program()
@@ -379,3 +499,4 @@ def run(ctx: Ctx) -> None:
     r3(ctx, prog)
     r4(ctx, prog)
     r5(ctx)
+    r6(ctx, prog)
